@@ -60,4 +60,12 @@ def run(rep, tier):
         n += r06c(rep, prog)
     if n == 0:
         rep.analysis_broken('parmcb::dijkstra is not instantiated (anchor vanished)')
+    # the hop test the spanner construction relies on (shared with C15)
+    from . import c15
+    rep.rule('R15f', 'bounded BFS answers true only within the hop bound (an edge is dropped only when a path of <= 2k-1 retained edges exists)', floor=1)
+    nb = 0
+    for prog in progs.values():
+        nb += c15.r15f(rep, prog)
+    if nb == 0:
+        rep.analysis_broken('parmcb::is_bfs_reachable is not instantiated (anchor vanished)')
     rep.assume('the numeric (2k-1) bound follows from the premises by the standard greedy-spanner argument; that argument is not mechanised here')
